@@ -143,5 +143,5 @@ Definition decompress_fast_continue (am : mem) (st : sdstate) (srcm : mem) (srcS
     let '(r, m, k) :=
       unsafe_generic srcm srcSize originalSize 0 (dictview am ed eds) eds (work am dest originalSize 0) in
     let am' := writeback am dest originalSize m in
-    if r <=? 0 then (r, am', st1, k)
+    if (r <=? 0) || (originalSize =? 0) then (r, am', st1, k)         (* empty block: history stays where it is (fix F19) *)
     else (r, am', mkSD ed (dest + originalSize) eds originalSize, k).
